@@ -46,6 +46,11 @@ def tu_strategy():
         "where": st.sampled_from(["obj", "obj", "obj", "ar0", "ar0", "ar1", "so"]),
         "ref": st.sampled_from([True, True, True, False]),
         "entries": st.lists(entry_strategy(), min_size=0, max_size=5),
+        # asm TUs only: the object's .init_array* / .fini_array* / .preinit_array* sections carry sh_type
+        # SHT_PROGBITS, as older compilers and assemblers that do not special-case the names emit them
+        # (GNU as overrides an explicit @progbits, so the object file is patched after assembling).
+        # Linkers place these sections by name; GNU ld stays the reference.
+        "untyped": st.sampled_from([False, False, False, True]),
     })
 
 
@@ -82,7 +87,8 @@ def normalise(case):
                     arr = "init"
             eid += 1
             ents.append({"id": eid, "arr": arr, "prio": prio, "pad": e["pad"]})
-        out.append({"i": i, "kind": tu["kind"], "where": where, "ref": tu["ref"], "entries": ents})
+        out.append({"i": i, "kind": tu["kind"], "where": where, "ref": tu["ref"], "entries": ents,
+                    "untyped": bool(tu.get("untyped")) and tu["kind"] == "asm"})
     return out
 
 
@@ -116,6 +122,27 @@ def asm_source(tu):
         out += [f".section {name},\"aw\",{ty}", "  .p2align 3", f"  .quad E{e['id']}"]
     out.append(".section .note.GNU-stack,\"\",@progbits")
     return "\n".join(out) + "\n"
+
+
+def untype_array_sections(path):
+    """Sets sh_type = SHT_PROGBITS on every .init_array* / .fini_array* / .preinit_array* section of an
+    ELF64 little-endian relocatable object. Returns the number of headers changed."""
+    import struct
+    b = bytearray(open(path, "rb").read())
+    shoff, = struct.unpack_from("<Q", b, 0x28)
+    shentsize, shnum, shstrndx = struct.unpack_from("<HHH", b, 0x3a)
+    stroff, = struct.unpack_from("<Q", b, shoff + shstrndx * shentsize + 0x18)
+    n = 0
+    for i in range(shnum):
+        h = shoff + i * shentsize
+        name_off, = struct.unpack_from("<I", b, h)
+        end = b.index(0, stroff + name_off)
+        name = bytes(b[stroff + name_off:end]).decode()
+        if name.startswith((".init_array", ".fini_array", ".preinit_array")):
+            struct.pack_into("<I", b, h + 4, 1)
+            n += 1
+    open(path, "wb").write(bytes(b))
+    return n
 
 
 def array_words(elf):
@@ -328,6 +355,8 @@ class C30(Check):
             pic = ["-fPIC"] if (tu["where"] == "so" or mode in ("pie", "static-pie")) else ["-fno-pic"]
             if tu["kind"] == "asm":
                 patient.asm(asm_source(tu), o, cwd=d)
+                if tu["untyped"]:
+                    untype_array_sections(f"{d}/{o}")
             else:
                 comp = "gcc" if tu["kind"] == "gcc" else "clang"
                 flags = ["-O1", "-w", *pic]
@@ -469,6 +498,9 @@ class C30(Check):
                 if any(n.startswith((".ctors", ".dtors")) and names.count(n) > 1 for n in names):
                     classes.append("legacy-section-with-several-entries")
                     nontrivial = True
+                if tu.get("untyped") and any(n.startswith((".init_array", ".fini_array")) for n in names):
+                    classes.append("untyped-array-section" + ("-with-several-entries" if any(
+                        n.startswith((".init_array", ".fini_array")) and names.count(n) > 1 for n in names) else ""))
                     break
         kinds = sorted({tu["kind"] for tu in tus if tu["entries"]})
         classes += [f"kind:{k}" for k in kinds]
